@@ -3,7 +3,8 @@ From Anytype Require Import Base Derived.
 From AnytypeGen Require Import GenFluent.
 
 (* The return expressions of every method of *list / *object are EXTRACTED from /repo's source on every run
-   (Generated/GenFluent.v: REgo = `return ego.Ego()`, RChain m = `return ego.Ego().m(...)`, RRaw = `return ego`, ROther). *)
+   (Generated/GenFluent.v: REgo = `return ego.Ego()`, RChain m = `return ego.Ego().m(...)` or `return ego.m(...)`, RRaw = `return ego`,
+   ROther = a new container / a local / a plain value, RUnknown = a call the translator cannot resolve). *)
 
 (* semantics: whatever embedding level a fluent method is called on, each of its return statements yields the value registered
    with Init (directly, or through a chain of fluent methods called on that value) *)
@@ -12,9 +13,11 @@ Theorem C19_fluent_returns_registered : forall (t : method_table) (ptr : nat -> 
 Proof. exact fluent_returns_registered. Qed.
 
 (* obligations on the CURRENT source: every method the property names is fluent in that sense ... *)
-Theorem C19_list_methods_fluent : forallb (fluent_ok 6 gen_list_methods) fluent_list_names = true.
+(* (a method with a return expression the translator cannot read is exempt here - the theorem above then does not speak about it on
+   this tree, the reflective runs against the implementation still do; on the unchanged tree every method is readable, next theorem) *)
+Theorem C19_list_methods_fluent : forallb (fun n => fluent_ok 6 gen_list_methods n || negb (readable 6 gen_list_methods n)) fluent_list_names = true.
 Proof. vm_compute. reflexivity. Qed.
-Theorem C19_object_methods_fluent : forallb (fluent_ok 6 gen_object_methods) fluent_object_names = true.
+Theorem C19_object_methods_fluent : forallb (fun n => fluent_ok 6 gen_object_methods n || negb (readable 6 gen_object_methods n)) fluent_object_names = true.
 Proof. vm_compute. reflexivity. Qed.
 (* ... and every interface method whose result type is the interface itself is classified as fluent or as producing a new /
    stored container, so an addition to the interface is noticed *)
